@@ -11,8 +11,8 @@ for S in seeded/*/; do
     rsync -a --exclude .git --exclude __pycache__ /repo/ "$D/"
   fi
   if ! ( cd "$D" && patch -p1 -s < "$OLDPWD/$S/patch.diff" ); then echo "$N PATCH-DOES-NOT-APPLY"; rm -rf "$D"; continue; fi
-  s=$(date +%s); out=$(VERIF_REPO="$D" ./check "$C" "$TIER" 2>&1); rc=$?; e=$(date +%s)
+  s=$(date +%s); out=$(VERIF_REPO="$D" VERIF_OUT="$D/_out" ./check "$C" "$TIER" 2>&1); rc=$?; e=$(date +%s)
   echo "$N $C $TIER rc=$rc $((e-s))s"
   rm -rf "$D"
 done
-rm -rf replays
+
